@@ -264,10 +264,13 @@ structure Param (α : Type) where
   fixed : Bool
 
 /-- `f.change_init_values(estimated_betas)`: a Beta whose name is a key takes the value (its
-status is irrelevant), the others are untouched -/
+status is irrelevant) — the assignment is guarded by `value != self.initValue`, so a Beta that
+already holds a value the comparison calls equal keeps the object it has (on doubles: +0.0 is
+kept when the new value is −0.0 and conversely; NaN is never equal and is assigned) —, the
+others are untouched -/
 def updateParam (est : List (String × α)) (p : Param α) : Param α :=
   match est.lookup p.name with
-  | some v => { p with value := v }
+  | some v => if Num.eq v p.value then p else { p with value := v }
   | none => p
 
 def writeBack (ps : List (Param α)) (est : List (String × α)) : List (Param α) :=
